@@ -119,6 +119,14 @@ class LoopMixin:
             return ("static", [self.lit(i) for i in x])
         if v.k == "ref" and v.note and v.note[0] == "static_items" and st.items(v.t).eq(v.note[2]):
             return ("static", v.note[1])
+        if v.k == "comp":
+            # a generator expression consumed by tuple() / list() / a for loop: its elements when the source is static, else as a list
+            items = self.comp_static(v, st, node)
+            if items is not None:
+                return ("static", items)
+            res = self.comp_to_list(v, st, node)
+            if len(res) == 1 and res[0][0] is st:
+                return self.iter_source(res[0][1], st, node)
         if v.k == "iter" and v.xs[0] in self.iter_kinds:
             return self.iter_kinds[v.xs[0]](self, v, st, node)
         if v.k == "iter":
@@ -410,6 +418,13 @@ class LoopMixin:
                             r.assume(self.spec_eval(fact, r, None, old=entry))
                         out.append(r)
                     else:
+                        if r.status == "ret" and spec.get("at_return"):
+                            r.status = "run"                                  # (specifications are evaluated in a running state)
+                            try:
+                                for fact in spec["at_return"]:                # leaving the loop by `return` from the body (same point as a break)
+                                    r.assume(self.spec_eval(fact, r, None, old=entry))
+                            finally:
+                                r.status = "ret"
                         out.append(r)
         return out
 
@@ -420,9 +435,15 @@ class LoopMixin:
             self.back_edge_hook(self, r, ordn, self._loop_frame_n)
         saved_env = r.env
         try:
-            c = self.cur_contract or getattr(self, "verify_contract", None)      # inside an inlined helper: the verified function's frame
+            c = self.cur_contract if (self.cur_contract is not None and not getattr(self.cur_contract, "auto_inline", False)) else getattr(self, "verify_contract", None)
+            # (inside an inlined helper, with or without automatic loop specs: the verified function's frame)
             r.env = {n.lstrip("*"): self.cur_entry.env[n.lstrip("*")] for n, _, _ in c.params}
+            n_before = len(self.obligations)
             self.frame_obligations(c, r, self.cur_entry, f"loop{ordn}.{self._loop_frame_n}")
+            if r.ghost.get("unannotated_loop"):
+                # the body of a loop the sidecar has no invariant for runs from a havocked head: what fails here counts only if it replays
+                for o in self.obligations[n_before:]:
+                    o.meta["unannotated_loop"] = True
         finally:
             r.env = saved_env
 
